@@ -288,6 +288,11 @@ def replacement_runs(text, dialect, acc, max_runs):
                 changed.append(p)
         new_paths = [p for p, i in after.items() if i == new_id]
         cls_old = type(state['old']).__name__
+        if new_paths and old_id in after.values():
+            # the visited node was replaced in one slot and is still held by another: whoever reads that one (a printer, say) sees the old node
+            still = [p for p, i in after.items() if i == old_id]
+            import re as _re
+            out.append(({'defect': 'replaced-node-still-held-elsewhere', 'cls': cls_old, 'where': _re.sub(r'\[\d+\]', '[]', still[0])[-60:]}, {'k': k, 'paths': still[:3]}))
         if not new_paths:
             out.append(({'defect': 'replacement-ignored', 'cls': cls_old}, {'k': k, 'old_paths': old_paths[:3]}))
         elif sorted(new_paths) != sorted(old_paths):
